@@ -422,7 +422,8 @@ def run(spec, tier):
         "evaluations": judged,
         "distinct_nontrivial": len(nontrivial),
         "rule": "queries: every derivation of the profile(s) %s within MaxSize (TLC, exhaustive=%s, %d enumerated, %d run); "
-                "events: %d sampled by tlc -simulate from spec/EventGen.tla with the run's seed; a case is non-trivial when its "
+                "events: %d (a tlc -simulate sample of spec/EventGen.tla with the run's seed plus one event per size plan: every bank empty / "
+                "one object / two / mixed / one bank missing); a case is non-trivial when its "
                 "package compiled and at least one event produced a row; distinct by canonical term x backend"
                 % ([p[0] for p in spec.profiles[tier]], exhaustive, total, len(cases), len(events)),
         "exhaustive": exhaustive,
